@@ -57,6 +57,8 @@ def _covered(cov):
         "ident": {False, True},
         "parity4": {False, True},
         "spinident": {True},
+        "idgroups": {0, 1, 2},
+        "idsize": {2, 3},
     }
     return [k for k, v in need.items() if not v <= set(cov.get(k, []))]
 
@@ -78,7 +80,15 @@ def features(s):
         f.add(("spinident", s["swapaligned"]))
     if s["ident"]:
         f.add(("identspin", max(s["fin"][i - 1][0] for pr in s["ident"] for i in pr)))
+        f.add(("idgroups", len(s["ident"])))
+        f.add(("idsize", max(len(g) for g in s["ident"])))
     return f
+
+
+def multi_group_scalar(s):
+    """two identical groups (or a group of three) of spin-0 finals: the symmetrisation runs over a product
+    (or all six permutations) and the known spinning-identical finding does not apply"""
+    return bool(s["ident"]) and (len(s["ident"]) >= 2 or max(len(g) for g in s["ident"]) >= 3) and all(s["fin"][i - 1][0] == 0 for g in s["ident"] for i in g)
 
 
 def select(structs, k, rng):
@@ -87,6 +97,19 @@ def select(structs, k, rng):
     feats = [features(s) for s in structs]
     todo = set().union(*feats)
     chosen = []
+    # mandatory: several spin-0 structures with two identical groups (exchange of one pair only / each / both)
+    # on different chain sets, and one with a group of three
+    seen_forms = set()
+    for want_groups, cap in ((2, 5), (1, 2)):
+        got = 0
+        for i in order:
+            s = structs[i]
+            forms = tuple(sorted(tuple(sorted(tuple(sorted(g)) for g in c["form"])) for c in s["chains"]))
+            if got < cap and multi_group_scalar(s) and len(s["ident"]) == want_groups and not known_class(s) and (want_groups, forms) not in seen_forms:
+                seen_forms.add((want_groups, forms))
+                chosen.append(i)
+                todo -= feats[i]
+                got += 1
     while todo and len(chosen) < k:
         best = max((i for i in order if i not in chosen), key=lambda i: len(feats[i] & todo))
         if not feats[best] & todo:
